@@ -6,37 +6,6 @@ From Atlas Require Import Base.Bytes Qual.Builder.
 Import ListNotations.
 Open Scope N_scope.
 
-(** * Rendering of identifier chains *)
-Definition render_ident (o c : N) (n : bytes) : bytes := o :: n ++ [c].
-Fixpoint render_chain (o c : N) (l : list bytes) : bytes :=
-  match l with
-  | [] => []
-  | [n] => render_ident o c n
-  | n :: rest => render_ident o c n ++ DOT :: render_chain o c rest
-  end.
-
-(* the schema component mayQualify decides on *)
-Definition qual_prefix (bs s : option bytes) : list bytes :=
-  match bs with
-  | Some q => if is_nil q then [] else [q]
-  | None => match s with Some n => if is_nil n then [] else [n] | None => [] end
-  end.
-Definition chain_of (bs s : option bytes) (top : bytes) (children : list bytes) : list bytes :=
-  qual_prefix bs s ++ top :: children.
-
-(* the chain a qualifying call emits under builder qualifier [bs] *)
-Definition emitted_chain (bs : option bytes) (o : op) : option (list bytes) :=
-  match o with
-  | OTable t => Some (chain_of bs (o_schema t) (o_name t) [])
-  | OTableResource t r => Some (chain_of bs (o_schema t) (o_name t) [r])
-  | OSchemaResource s n => Some (chain_of bs s n [])
-  | OFuncCall f _ => Some (chain_of bs (o_schema f) (o_name f) [])
-  | ORefTable c p =>
-      Some (if cross_ref bs c p then [VName (o_schema p); o_name p]
-            else chain_of bs (o_schema p) (o_name p) [])
-  | _ => None
-  end.
-
 Definition nonempty (s : bytes) : Prop := s <> [].
 
 (** * Buffer primitives in terms of [out] *)
@@ -701,9 +670,6 @@ Proof.
 Qed.
 
 (** * Which chain a qualifying call emits *)
-Definition opt_name (s : option bytes) : list bytes :=
-  match s with Some n => if is_nil n then [] else [n] | None => [] end.
-
 Lemma builder_chain_cases (s : option bytes) (top : bytes) (children : list bytes) :
   chain_of (Some []) s top children = top :: children /\
   (forall q, q <> [] -> chain_of (Some q) s top children = q :: top :: children) /\
